@@ -80,6 +80,10 @@ def exhaustive_depth1(nargs=2):
     for p in (0, 1, 2, 3, -1, -2):
         out.append(f'a ** {p}')
     out += ['a.grade(1)', 'a.grade(0, 2)', 'a.grade((1, 2))', 'a.e1 * b', 'a.e12 * b', 'a.e21 * b', 'a.e * b']
+    # spellings of every parity of the pseudoscalar-like blades (odd and even permutations; the latter need grade >= 3)
+    out += ['a.e123 * b', 'a.e231 * b', 'a.e312 * b', 'a.e213 * b', 'a.e321 * b', 'a.e132 * b', 'a.e012 * b', 'a.e120 * b', 'a.e201 * b',
+            'a.e102 * b', 'a.e23 * b + a.e32 * a']
+    out += ['a.normalized()', 'a.normalized() * b', 'a.norm() * b', '(a * b).normalized()']
     return out
 
 
@@ -194,6 +198,9 @@ def run(ctx):
         # sums of a polynomial-valued and a fraction-valued operand in both orders (the symbolic route computes in
         # kingdon's RationalPolynomial); the arguments of these share their key pattern so the summands meet on blades
         sources += [(s, 2, 'same') for s in MIXED]
+        # coefficient access by spellings of every parity and norms that are not scalars need operands that actually contain
+        # those blades: structured first operands (dense, even part, bivector block, scalar + pseudoscalar)
+        sources += [(s, 2, 'structured') for s in exhaustive_depth1() if ('.e' in s and len(s.split('.e')[1].split()[0]) >= 3) or 'norm' in s] * 3
         ntree = 150 if ctx.quick else 1000
         for _ in range(ntree):
             nargs = rng.choice([1, 2, 2, 3])
@@ -207,7 +214,8 @@ def run(ctx):
         sources.append(('inner_fn(~a, b).grade(1) + inner_fn(b, a)', 2))
         for item in sources:
             src, nargs = item[0], item[1]
-            same = len(item) > 2
+            same = len(item) > 2 and item[2] == 'same'
+            structured = len(item) > 2 and item[2] == 'structured'
             fid[0] += 1
             name = f'f{fid[0]}'
             extra_direct = {'inner_fn': inner}
@@ -224,6 +232,11 @@ def run(ctx):
             if same:
                 base = rng.choice([[1, 2], [0, 3], [1, 2, 4][:d], [0, 1]])
                 pats = [list(base) for _ in pats]
+            if structured:
+                g2 = [k for k in full if bin(k).count('1') == 2]
+                pats[0] = rng.choice([full, [k for k in full if bin(k).count('1') % 2 == 0], g2, [0, 2 ** d - 1], [2 ** d - 1, 1, 2]])
+                if any(m in src for m in FLOATY) and len(pats[0]) > 8:
+                    pats[0] = g2 or pats[0][:4]
             floaty = any(m in src for m in FLOATY) or '** 0.5' in src
             args = [values_for(alg, rng, p, exact=not floaty) for p in pats]
             direct = result_of(f, args)
@@ -234,7 +247,7 @@ def run(ctx):
             supported = is_supported(src)
             routes = [('registered', lambda: alg.register(f_for_reg))]
             heavy = src.count('>>') + src.count('@') + src.count('.inv()') + src.count('/') + src.count('**') + src.count('.sw(') + src.count('.proj(') + src.count('.div(')
-            if (heavy <= 1 and len(src) < 60) or same:
+            if ((heavy <= 1 and len(src) < 60) or same) and not (structured and len(pats[0]) > 8):
                 routes.append(('registered-symbolic', lambda: alg.register(symbolic=True)(f_for_sym)))
             for rname, mk in routes:
                 ctx.case({**case, 'route': rname}, tag=rname + (':supported' if supported else ':other'))
